@@ -99,7 +99,7 @@ def stored(c, name):
 
 def fragments():
     return ['plain', 'a//b', 'a/*b*/c', '/*', '*/', '#define X', '#if 0', 'MACRO', 'say \\"hi\\"', 'back\\\\slash', 'end\\\\', 'tab\\there', 'nl\\n', 'all\\a\\b\\f\\v\\r\\t\\n', 'nul\\0mid',
-            'trail\\0', '', ' ', 'it\'s', 'q\\"//x', '@1@', 'a @0@ b', 'semi;colon', '{brace}', '\\\\\\"', 'x\\\\n', '%d', 'MACRO MACRO']
+            'trail\\0', '', ' ', 'it\'s', 'q\\"//x', '@1@', 'a @0@ b', 'semi;colon', '{brace}', '\\\\\\"', 'x\\\\n', '%d', 'MACRO MACRO', '#include <x.h>', 'see #include \\"y.h\\" here', '#error no', '#endif', 'a \\\\', "'", '??/']
 
 
 def programs(tier):
